@@ -235,6 +235,9 @@ fn build_branch(
     ops: &[BranchOp],
     gauge: &BranchGauge,
 ) -> BranchNode {
+    #[cfg(feature = "verif-hooks")]
+    verif::note_gauge(gauge);
+
     let branch = BranchNode::new_in(&page_pool);
 
     let mut builder = BranchNodeBuilder::new(
@@ -542,6 +545,155 @@ impl BranchGauge {
     #[cfg(test)]
     pub fn n(&self) -> usize {
         self.n
+    }
+}
+
+/// Verification hook: drive the real `BranchUpdater` (with `BranchGauge`, `BranchOpsTracker`,
+/// `BranchNodeBuilder`) over chosen base nodes and operations and report, for every node it
+/// builds, what the gauge computed and the bytes of the page. Add-only, no change of behaviour.
+#[cfg(feature = "verif-hooks")]
+pub(crate) mod verif {
+    use super::{
+        prefix_len, separator_len, Arc, BaseBranch, BranchGauge, BranchNode, BranchNodeBuilder,
+        BranchUpdater, DigestResult, HandleNewBranch, Key, PageNumber, PagePool,
+    };
+    use std::cell::RefCell;
+
+    /// What `build_branch` was given by the gauge: body size, n, prefix-compressed items,
+    /// prefix length.
+    #[derive(Clone, Copy, Debug)]
+    pub struct GaugeNote {
+        pub body_size: usize,
+        pub n: usize,
+        pub prefix_compressed: usize,
+        pub prefix_len: usize,
+    }
+
+    thread_local! {
+        static GAUGES: RefCell<Option<Vec<GaugeNote>>> = RefCell::new(None);
+    }
+
+    pub(super) fn note_gauge(gauge: &BranchGauge) {
+        GAUGES.with(|g| {
+            if let Some(v) = g.borrow_mut().as_mut() {
+                v.push(GaugeNote {
+                    body_size: gauge.body_size(),
+                    n: gauge.n,
+                    prefix_compressed: gauge.prefix_compressed_items(),
+                    prefix_len: gauge.prefix_len,
+                });
+            }
+        });
+    }
+
+    /// One base node with the keys ingested while it is the base, as `branch_stage` drives the
+    /// updater: `reset_base(base, cutoff)`, `ingest` of every operation, `digest`.
+    pub struct Stage {
+        /// The page of the base node, if any.
+        pub base: Option<Vec<u8>>,
+        /// Ascending keys with the new page number or `None` for a deletion.
+        pub ops: Vec<(Key, Option<u32>)>,
+        pub cutoff: Option<Key>,
+    }
+
+    pub struct Built {
+        /// Index of the stage whose `digest` built the node.
+        pub stage: usize,
+        pub separator: Key,
+        pub cutoff: Option<Key>,
+        pub gauge: GaugeNote,
+        pub page: Vec<u8>,
+    }
+
+    pub struct Output {
+        pub built: Vec<Built>,
+        /// For every stage: did `digest` return `NeedsMerge`, and the gauge's body size of the
+        /// operations left in the tracker after it.
+        pub stages: Vec<(bool, usize)>,
+    }
+
+    struct Collect {
+        stage: usize,
+        built: Vec<(usize, Key, Option<Key>, Vec<u8>)>,
+    }
+
+    impl HandleNewBranch for Collect {
+        fn handle_new_branch(
+            &mut self,
+            separator: Key,
+            node: BranchNode,
+            cutoff: Option<Key>,
+        ) -> std::io::Result<()> {
+            self.built
+                .push((self.stage, separator, cutoff, node.as_slice().to_vec()));
+            Ok(())
+        }
+    }
+
+    /// Build a node from separators the way the tests' `make_raw_branch` does, with the first
+    /// `prefix_compressed` separators sharing the prefix.
+    pub fn build(seps: &[(Key, u32)], prefix_compressed: usize) -> Vec<u8> {
+        let page_pool = PagePool::new();
+        let n = seps.len();
+        let prefix_len = if prefix_compressed <= 1 {
+            separator_len(&seps[0].0)
+        } else {
+            prefix_len(&seps[0].0, &seps[prefix_compressed - 1].0)
+        };
+        let mut branch = BranchNode::new_in(&page_pool);
+        branch.as_mut_slice().fill(0);
+        let mut builder = BranchNodeBuilder::new(branch, n, prefix_compressed, prefix_len);
+        for (k, pn) in seps {
+            builder.push(*k, separator_len(k), *pn);
+        }
+        builder.finish().as_slice().to_vec()
+    }
+
+    pub fn rebuild(stages: Vec<Stage>) -> Output {
+        let page_pool = PagePool::new();
+        let mut updater = BranchUpdater::new(page_pool.clone(), None, None);
+        let mut collect = Collect {
+            stage: 0,
+            built: Vec::new(),
+        };
+        let mut stage_results = Vec::new();
+        GAUGES.with(|g| *g.borrow_mut() = Some(Vec::new()));
+        for (i, stage) in stages.into_iter().enumerate() {
+            collect.stage = i;
+            let base = stage.base.map(|bytes| {
+                let mut node = BranchNode::new_in(&page_pool);
+                node.as_mut_slice().copy_from_slice(&bytes);
+                BaseBranch::new(Arc::new(node))
+            });
+            updater.reset_base(base, stage.cutoff);
+            for (key, pn) in stage.ops {
+                updater.ingest(key, pn.map(PageNumber));
+            }
+            let needs_merge = match updater.digest(&mut collect) {
+                Ok(DigestResult::Finished) => false,
+                Ok(DigestResult::NeedsMerge(_)) => true,
+                Err(_) => unreachable!("the collecting handler does not fail"),
+            };
+            stage_results.push((needs_merge, updater.ops_tracker.body_size()));
+        }
+        let gauges = GAUGES.with(|g| g.borrow_mut().take()).unwrap_or_default();
+        assert_eq!(gauges.len(), collect.built.len());
+        let built = collect
+            .built
+            .into_iter()
+            .zip(gauges)
+            .map(|((stage, separator, cutoff, page), gauge)| Built {
+                stage,
+                separator,
+                cutoff,
+                gauge,
+                page,
+            })
+            .collect();
+        Output {
+            built,
+            stages: stage_results,
+        }
     }
 }
 
